@@ -103,6 +103,9 @@ func (c *Ctx) replayVerdict(rf *ReplayFile) (bool, string) {
 		return false, "trace equals the reference: " + got
 	}
 	// crash classes
+	if strings.HasPrefix(rf.Class, "unevaluable:") {
+		rf.Class = strings.TrimPrefix(rf.Class, "unevaluable:")
+	}
 	if rf.Class == "panic" || rf.Class == "budget" || strings.HasPrefix(rf.Class, "fatal:") {
 		r := c.Pool.RunFresh(rf.Spec)
 		cl, wh, de := crashOf(r)
